@@ -2,7 +2,7 @@
 import os, sys, glob, hashlib, subprocess, shutil, time
 
 REPO = os.environ.get('VERIF_REPO', '/repo')
-CACHE = os.path.join(os.path.dirname(os.path.dirname(os.path.abspath(__file__))), '.cache')
+CACHE = os.environ.get('VERIF_CACHE') or os.path.join(os.path.dirname(os.path.dirname(os.path.abspath(__file__))), '.cache')
 
 def src_hash(crates):
     h = hashlib.sha256()
